@@ -4,11 +4,13 @@
 //! Worker response = `<observables>` [TAB `#FAIL:<reason>`]. The observables are compared with
 //! the model's; the `#FAIL` suffix is the property's own oracle evaluated on the real code.
 
+mod cpr;
 mod deb;
 mod docspec;
 mod lossy;
 mod pgp;
 mod rel;
+mod total;
 mod util;
 
 use std::io::{BufRead, Write};
@@ -36,6 +38,12 @@ fn dispatch(op: &str, args: &[&str]) -> Option<Resp> {
     if let Some(r) = lossy::handle(op, args) {
         return Some(r);
     }
+    if let Some(r) = cpr::handle(op, args) {
+        return Some(r);
+    }
+    if let Some(r) = total::handle(op, args) {
+        return Some(r);
+    }
     if let Some(r) = rel::handle(op, args) {
         return Some(r);
     }
@@ -44,8 +52,10 @@ fn dispatch(op: &str, args: &[&str]) -> Option<Resp> {
 
 fn generate(prop: &str, tier: &str, seed: u64, out: &mut util::Out) {
     match prop {
+        "C17" => cpr::generate_c17(tier, seed, out),
         "C19" => pgp::generate(tier, seed, out),
         "C01" => deb::generate_c01(tier, seed, out),
+        "C02" => total::generate_c02(tier, seed, out),
         "C03" => deb::generate_c03(tier, seed, out),
         "C06" => lossy::generate_c06(tier, seed, out),
         "C08" => lossy::generate_c08(tier, seed, out),
